@@ -152,3 +152,15 @@ func es2(e *lin.Expr) string {
 	}
 	return e.String()
 }
+
+// StreamsOf lists the streams contained in a value, in order.
+func StreamsOf(v Value) []*Stream {
+	var ss []*Stream
+	collectStreams(v, &ss)
+	return ss
+}
+
+// SymResolver maps a symbol name to its expression.
+func SymResolver(r *Result) func(string) *lin.Expr {
+	return func(name string) *lin.Expr { return lin.V(lin.Sym(name)) }
+}
